@@ -1,4 +1,5 @@
 """C07 - downscalers compute the documented block statistic exactly."""
+import math
 from fractions import Fraction
 
 import numpy as np
@@ -23,9 +24,10 @@ META = {
              " Round 12: non-dyadic outside values (mean just beside a tie)."
              " Round 16: the result is read only after the same downscaler has processed another array of the same shape and type."
              " Round 17: the downscaler under test is the second one made from one options dictionary object."
-             " Round 19: differently configured downscalers created afterwards and kept alive."),
+             " Round 19: differently configured downscalers created afterwards and kept alive."
+             " Round 21: float32 arrays with infinite voxels of one sign."),
     "trusted_base": ["vlib/refs/downscale_ref.py, dtype_ref.py (Fractions)"],
-    "assumptions": ["finite values; float32 results compared within 1 ulp"],
+    "assumptions": ["finite values, or float32 infinities of one sign per array; float32 results compared within 1 ulp"],
 }
 
 DTYPES = ["uint8", "uint16", "uint32", "uint64", "float32"]
@@ -72,15 +74,27 @@ def cases(draw, method=None):
         outside = None
     # "auto" is the command-line default: the method follows the dataset type
     auto = method in ("average", "stride") and draw(st.integers(0, 2)) == 0
+    infinite = None
+    if dtype == "float32" and draw(st.integers(0, 3)) == 0:
+        # saturated voxels of a float volume: infinities of one sign (the
+        # mean of a block that holds one is that infinity)
+        infinite = draw(st.sampled_from(["+", "-"]))
     return {"method": method, "dtype": dtype, "shape": shape, "data": data,
             "factors": factors, "outside": outside, "auto": auto,
+            "infinite": infinite,
             # memory layout of the array handed to the downscaler
             "layout": draw(st.sampled_from(["c", "c", "c"] + list(
                 dsets.LAYOUTS[1:])))}
 
 
 def build(case):
-    return np.array(case["data"], dtype=case["dtype"]).reshape(case["shape"])
+    arr = np.array(case["data"], dtype=case["dtype"]).reshape(case["shape"])
+    if case.get("infinite"):
+        flat = arr.reshape(-1)
+        flat[1::4] = np.inf if case["infinite"] == "+" else -np.inf
+        if flat.size == 1:
+            flat[0] = np.inf if case["infinite"] == "+" else -np.inf
+    return arr
 
 
 def get_downscaler(case):
@@ -231,6 +245,11 @@ def check_case(ctx, case):
                         ok = g == e
                     elif case["method"] == "majority":
                         e = ref.majority(vals)
+                        ok = g == e
+                    elif any(isinstance(v, float) and math.isinf(v)
+                             for v in vals):
+                        e = [v for v in vals if isinstance(v, float)
+                             and math.isinf(v)][0]
                         ok = g == e
                     else:
                         m = ref.mean(vals)
